@@ -265,6 +265,9 @@ def guard_decls(tier='quick'):
                       derives=[x for x in der if x != 'Arbitrary']))
         out.append(mk('grd_%s_san_nov' % t, fam, t, sanitizers=[Sanitizer('with', s)], aux=[n5],
                       derives=[x for x in der if x not in ('Arbitrary',)]))
+        s3, n6 = aux.custom('san3', t)
+        out.append(mk('grd_%s_san3_val' % t, fam, t, sanitizers=[Sanitizer('with', s3)], validators=vals, aux=[n1, n2, n6],
+                      derives=[x for x in der if x != 'Arbitrary']))
     for d in out:
         d.verus = False
         d.kani = True
@@ -575,6 +578,9 @@ def fromstr_decls(tier='quick'):
         out.append(mk('fs_%s_san_nov' % t, fam, t, sanitizers=[Sanitizer('with', s)], aux=[n5], derives=['Debug', 'FromStr']))
         v, n4 = aux.custom('vfn', t)
         out.append(mk('fs_%s_custom' % t, fam, t, custom_validation=v, custom_error='MyErr', aux=[n4, 'MyErr'], derives=['Debug', 'FromStr']))
+        s3, n6 = aux.custom('san3', t)     # NOT idempotent: applying it twice is visible
+        out.append(mk('fs_%s_san3_val' % t, fam, t, sanitizers=[Sanitizer('with', s3)], validators=vals, aux=[n1, n2, n6], derives=['Debug', 'FromStr']))
+        out.append(mk('fs_%s_san3_nov' % t, fam, t, sanitizers=[Sanitizer('with', s3)], aux=[n6], derives=['Debug', 'FromStr']))
     p, pn = aux.custom('pred', 'point')
     sp, sn = aux.custom('san', 'point')
     pa = ['Point', 'MyErr', 'PointFromStr']
@@ -707,6 +713,8 @@ def serde_decls(tier='quick'):
         out.append(mk('sd_%s_san_nov' % t, fam, t, sanitizers=[Sanitizer('with', s)], aux=[n5], derives=sd))
         v, n4 = aux.custom('vfn', t)
         out.append(mk('sd_%s_custom' % t, fam, t, custom_validation=v, custom_error='MyErr', aux=[n4, 'MyErr'], derives=sd))
+        s3, n6 = aux.custom('san3', t)
+        out.append(mk('sd_%s_san3_val' % t, fam, t, sanitizers=[Sanitizer('with', s3)], validators=[vals[-1]], aux=[n2, n6], derives=sd))
         if fl:
             out.append(mk('sd_%s_bounds_nofinite' % t, fam, t, validators=[Validator('greater_or_equal', bl)], aux=[n1], derives=sd))
     out += generic_decls('sd', sd)
@@ -719,7 +727,9 @@ def serde_decls(tier='quick'):
 def serde_string_decls():
     out = [mk('sd_str_tr_max', 'string', 'String', sanitizers=[Sanitizer('trim')], validators=[Validator('len_char_max', aux.lit_bound(2))],
               derives=['Debug', 'Serialize', 'Deserialize']),
-           mk('sd_str_tr_nov', 'string', 'String', sanitizers=[Sanitizer('trim')], derives=['Debug', 'Serialize', 'Deserialize'])]
+           mk('sd_str_tr_nov', 'string', 'String', sanitizers=[Sanitizer('trim')], derives=['Debug', 'Serialize', 'Deserialize']),
+           mk('sd_str_nos_max', 'string', 'String', validators=[Validator('len_char_max', aux.lit_bound(4))], derives=['Debug', 'Serialize', 'Deserialize']),
+           mk('sd_str_nothing', 'string', 'String', derives=['Debug', 'Serialize', 'Deserialize'])]
     for d in out:
         d.verus = False
         d.kani = True
@@ -1108,6 +1118,9 @@ def float_decls(tier='quick'):
                       aux=[n5, n2], derives=FLOAT_DERIVES + ['Eq', 'Ord']))
         out.append(mk('flt_%s_san_nov' % t, 'float', t, sanitizers=[Sanitizer('with', s)], aux=[n5],
                       derives=['Debug', 'Clone', 'Copy', 'PartialEq', 'PartialOrd', 'AsRef', 'Deref', 'Borrow', 'Into', 'From']))
+        s3, n6 = aux.custom('san3', t)
+        out.append(mk('flt_%s_san3_fin_le' % t, 'float', t, sanitizers=[Sanitizer('with', s3)], validators=[fin, Validator('less_or_equal', bu)],
+                      aux=[n6, n2], derives=FLOAT_DERIVES + ['Eq', 'Ord']))
         out.append(mk('flt_%s_san_nov_tf' % t, 'float', t, sanitizers=[Sanitizer('with', s)], aux=[n5],
                       derives=['Debug', 'Clone', 'Copy', 'PartialEq', 'PartialOrd', 'AsRef', 'Deref', 'Borrow', 'Into', 'TryFrom']))
         out.append(mk('flt_%s_nothing' % t, 'float', t, derives=['Debug', 'Clone', 'Copy', 'PartialEq', 'PartialOrd', 'AsRef', 'Deref', 'Borrow', 'Into', 'From']))
@@ -1213,7 +1226,7 @@ def harnesses_for(prop, tier, seed):
                     hs.append(h_deserialize(d, [prop], bounded=B, concrete=(lit, mode, ok, tag)))
             else:
                 hs.append(h_serialize(d, [prop], concrete=('" ab "', 'ab'), bounded=B))
-                hs.append(h_roundtrip_string(d, [prop], '" a\\"b "', 'text with a quote', B))
+                hs.append(h_roundtrip_string(d, [prop], '"\\"a"', 'text with a quote', B))
                 hs.append(h_roundtrip_string(d, [prop], '"x"', 'x', B))
         decls = decls + sdecls
     elif prop == 'C05':
